@@ -246,6 +246,11 @@ impl Property for C02 {
         let (p, s) = decode(bytes);
         run_case(&p, &s)
     }
+    /// one case is up to ~55 complete runs of a program, several of them with a collection at
+    /// every allocation: tens of CPU seconds for allocation-heavy programs on a busy machine
+    fn case_timeout(&self) -> std::time::Duration {
+        std::time::Duration::from_secs(150)
+    }
     fn crash_context(&self, _bytes: &[u8]) -> String {
         ":gc".into()
     }
